@@ -704,6 +704,24 @@ def r_search_state_and_identity(r, prog):
     r.floor(5)
 
 
+def _through_identity_helpers(prog, f, v):
+    """`address_of(x)` -> `x` / `definition(x)` when address_of is a function of this crate that hands back (the definition of) its argument
+    (casts are transparent)"""
+    for _ in range(3):
+        m = re.match(r'^(\w+)\((.*)\)$', v)
+        if not m:
+            break
+        cands = {c.resolved for c in f.calls() if c.name() == m.group(1) and c.resolved in prog.fns and prog.fns[c.resolved].crate.tag == f.crate.tag}
+        if len(cands) != 1:
+            break
+        h = prog.fns[cands.pop()]
+        ret = vexpr(h, {'cp': {'l': 0}})
+        if h.argc != 1 or [c for c in h.calls() if not h.blocks[c.bb].get('cleanup') and c.name() not in ('definition', 'deref', 'borrow')] or ret not in ('arg1', 'definition(arg1)'):
+            break
+        v = ret.replace('arg1', m.group(2))
+    return v
+
+
 def r_dead_ends(r, prog):
     """A type may be skipped as a dead end only if an earlier, complete search through it found nothing for the same root."""
     CDT = CD + "CycleDetector::<'a>::"
@@ -757,7 +775,7 @@ def r_dead_ends(r, prog):
         f = prog.fn(CDT + fn_name)
         for c in f.calls():
             if c.name() in ('insert', 'contains') and not f.blocks[c.bb].get('cleanup') and re.search(r'dead_ends$', vexpr(f, c.args[0])):
-                keys.append((fn_name, c, vexpr(f, c.args[0]).rsplit('.', 1)[-1], vexpr(f, c.args[1])))
+                keys.append((fn_name, c, vexpr(f, c.args[0]).rsplit('.', 1)[-1], _through_identity_helpers(prog, f, vexpr(f, c.args[1]))))
     NAMED = (r'^module_scoped_identifier\(arg2\)$', r'^unwrap\(pop\(arg1\.dependency_stack\)\)\.0$')
     bad = [(fn_name, c, st, k) for fn_name, c, st, k in keys
            if not ((st == 'dead_ends' and any(re.match(p_, k) for p_ in NAMED)) or (st == 'anonymous_dead_ends' and k == 'definition(arg2)'))]
